@@ -126,6 +126,10 @@ Next == SetParams \/ Fork \/ (\E w \in 1..MaxCpu : w \in DOMAIN running /\ (Take
         \/ Assemble \/ SerialMap \/ Close
 
 Spec == Init /\ [][Next]_vars
+\* with weak fairness on the whole next-state relation every call is eventually answered (no lost chunk, no worker waiting for ever)
+FairSpec == Spec /\ WF_vars(Next)
+AllCallsReturn == <>(cur = NCalls + 1)
+EveryChunkFinishes == \A j \in 1..MaxTasks : [](((pc = "forked") /\ (j \in DOMAIN slots) /\ (slots[j] = <<>>)) => <>((pc # "forked") \/ ((j \in DOMAIN slots) /\ (slots[j] # <<>>))))
 
 (***************************************************************************)
 (* Properties                                                              *)
